@@ -4,12 +4,14 @@ use crate::framework::{CheckDef, Tier};
 #[macro_use]
 pub mod common;
 pub mod c04;
+pub mod c19;
 
-pub const ALL: &[&str] = &["C04"];
+pub const ALL: &[&str] = &["C04", "C19"];
 
 pub fn build(prop: &str, tier: Tier) -> Option<CheckDef> {
     match prop {
         "C04" => Some(c04::build(tier)),
+        "C19" => Some(c19::build(tier)),
         _ => None,
     }
 }
